@@ -3,6 +3,7 @@ let () =
   let ic = if Array.length Sys.argv > 2 then open_in Sys.argv.(2) else stdin in
   match mode with
   | "syntax" -> Syntax.run_syntax ic
+  | "ser" -> Syntax.run_ser ic
   | "hash" -> Hashmodel.run_hash ic
   | "graph" -> Graphmodel.run_graph ic
   | "runcache" -> Runcachemodel.run_runcache ic
